@@ -33,7 +33,10 @@ import (
 	"go.uber.org/zap"
 	"google.golang.org/protobuf/proto"
 
+	"github.com/ozontech/seq-db/consts"
+	"github.com/ozontech/seq-db/frac"
 	"github.com/ozontech/seq-db/frac/lids"
+	"github.com/ozontech/seq-db/fracmanager"
 	"github.com/ozontech/seq-db/frac/processor"
 	"github.com/ozontech/seq-db/logger"
 	"github.com/ozontech/seq-db/metric/stopwatch"
@@ -711,8 +714,15 @@ type fakeIndex struct {
 	fields   map[string][]uint32 // field -> tids
 }
 
-func buildIndex(docs []doc) *fakeIndex {
+// tidOff reserved token ids come first, so that the tids of a field are `tidOff + source` (in a real fraction the
+// tids of a field are a contiguous block somewhere in the token table; a small offset makes source indexes and tids
+// overlap without being equal).
+func buildIndex(docs []doc, tidOff int) *fakeIndex {
 	ix := &fakeIndex{docs: docs, fields: map[string][]uint32{}}
+	for i := 0; i < tidOff; i++ {
+		ix.tokens = append(ix.tokens, fmt.Sprintf("pad%d", i))
+		ix.postings = append(ix.postings, nil)
+	}
 	addTok := func(field, val string, lid uint32) {
 		for _, tid := range ix.fields[field] {
 			if ix.tokens[tid] == val {
@@ -813,7 +823,12 @@ func (a aggq) toQuery() processor.AggQuery {
 	return q
 }
 
-func search(ix *fakeIndex, aggs []aggq, histInterval uint64, order seq.DocsOrder) (qpr *seq.QPR, err error) {
+// prodLimits are the seq-db binary's default aggregation limits (cmd/seq-db/flags.go); the generated corpora stay far
+// below them, so they must not change any result - but they switch on the source counting and the token cache of
+// SourcedNodeIterator.ValueBySource.
+var prodLimits = processor.AggLimits{MaxFieldTokens: 1000000, MaxGroupTokens: 2000, MaxTIDsPerFraction: 100000}
+
+func search(ix *fakeIndex, aggs []aggq, histInterval uint64, order seq.DocsOrder, limits bool) (qpr *seq.QPR, err error) {
 	defer func() {
 		if e := recover(); e != nil {
 			err = fmt.Errorf("panic: %v", e)
@@ -831,7 +846,11 @@ func search(ix *fakeIndex, aggs []aggq, histInterval uint64, order seq.DocsOrder
 	for _, a := range aggs {
 		p.AggQ = append(p.AggQ, a.toQuery())
 	}
-	return processor.IndexSearch(context.Background(), p, ix, processor.AggLimits{}, stopwatch.New())
+	lim := processor.AggLimits{}
+	if limits {
+		lim = prodLimits
+	}
+	return processor.IndexSearch(context.Background(), p, ix, lim, stopwatch.New())
 }
 
 func fmtDocs(docs []doc) string {
@@ -991,11 +1010,13 @@ func aggIndexChannel(o vh.Opts, rng *vh.RNG) (*vh.Channel, *vh.Channel) {
 		mtag := modeTag()
 		docs := genDocs(rng, rng.Range(0, o.Pick(10, 24)), multi, bad)
 		valMode = 0
-		ix := buildIndex(docs)
+		tidOff := rng.Intn(3)
+		limits := rng.Bool()
+		ix := buildIndex(docs, tidOff)
 		aggs := genAggs(rng)
 		order := seq.DocsOrder(rng.Intn(2))
 		histInterval := uint64([]int{0, 1, 10, 25}[rng.Intn(4)])
-		qpr, err := search(ix, aggs, histInterval, order)
+		qpr, err := search(ix, aggs, histInterval, order, limits)
 		nmatch := 0
 		var mids []uint64
 		for _, d := range docs {
@@ -1022,7 +1043,7 @@ func aggIndexChannel(o vh.Opts, rng *vh.RNG) (*vh.Channel, *vh.Channel) {
 				continue
 			}
 			for _, a := range aggs {
-				solo, serr := search(ix, []aggq{a}, 0, order)
+				solo, serr := search(ix, []aggq{a}, 0, order, limits)
 				req := modelAggRequest(ix, a, order)
 				if serr != nil {
 					ch.Add(req, "err parse", nmatch >= 2, "fn="+a.fn, "outcome=err", "multi="+vh.B(multi))
@@ -1034,7 +1055,7 @@ func aggIndexChannel(o vh.Opts, rng *vh.RNG) (*vh.Channel, *vh.Channel) {
 		}
 		for j, a := range aggs {
 			ch.Add(modelAggRequest(ix, a, order), "ok "+fmtASx(&qpr.Aggs[j], false, true), nmatch >= 2, "fn="+a.fn, "outcome=ok",
-				"multi="+vh.B(multi), "group="+vh.B(a.group), fmt.Sprintf("timeseries=%s", vh.B(a.interval > 0)), "rev="+vh.B(order.IsReverse()), mtag)
+				"multi="+vh.B(multi), "group="+vh.B(a.group), fmt.Sprintf("timeseries=%s", vh.B(a.interval > 0)), "rev="+vh.B(order.IsReverse()), mtag, "prod-limits="+vh.B(limits), fmt.Sprintf("tid-offset=%d", tidOff))
 		}
 	}
 	return ch, hch
@@ -1259,7 +1280,9 @@ func expectedBucketsX(fracs [][]doc, a aggq, skip bool, asFound bool) string {
 }
 
 type sysCase struct {
-	huge  bool
+	limits bool // run with the production default aggregation limits
+	tidOff int  // reserved tids before the fields' tokens
+	huge   bool
 	fracs [][]doc
 	agg   aggq
 	hist  uint64
@@ -1272,15 +1295,24 @@ func (c sysCase) String() string {
 	for _, f := range c.fracs {
 		fs = append(fs, fmtDocs(f))
 	}
-	return fmt.Sprintf("sys %s hist=%d order=%d perm=%s fracs=%s", c.agg.String(), c.hist, c.order, vh.JoinInts(c.perm), strings.Join(fs, "|"))
+	opts := ""
+	if c.limits || c.tidOff != 0 {
+		opts = fmt.Sprintf(" opts=lim%s,off%d", vh.B(c.limits), c.tidOff)
+	}
+	return fmt.Sprintf("sys %s hist=%d order=%d perm=%s fracs=%s%s", c.agg.String(), c.hist, c.order, vh.JoinInts(c.perm), strings.Join(fs, "|"), opts)
 }
 
 func parseSys(line string) (sysCase, bool) {
 	f := strings.Fields(line)
-	if len(f) != 6 || f[0] != "sys" {
+	if (len(f) != 6 && len(f) != 7) || f[0] != "sys" {
 		return sysCase{}, false
 	}
 	var c sysCase
+	if len(f) == 7 {
+		var l int
+		fmt.Sscanf(strings.TrimPrefix(f[6], "opts="), "lim%d,off%d", &l, &c.tidOff)
+		c.limits = l == 1
+	}
 	c.agg = parseAggq(f[1])
 	c.hist, _ = strconv.ParseUint(strings.TrimPrefix(f[2], "hist="), 10, 64)
 	ord, _ := strconv.Atoi(strings.TrimPrefix(f[3], "order="))
@@ -1302,7 +1334,7 @@ func parseSys(line string) (sysCase, bool) {
 func runSys(c sysCase, rep *vh.Report, orc *vh.Oracle) {
 	var qprs []*seq.QPR
 	for _, i := range c.perm {
-		qpr, err := search(buildIndex(c.fracs[i]), []aggq{c.agg}, c.hist, c.order)
+		qpr, err := search(buildIndex(c.fracs[i], c.tidOff), []aggq{c.agg}, c.hist, c.order, c.limits)
 		if err != nil {
 			rep.Violate(vh.Violation{Site: "frac/processor/search.go:IndexSearch", Class: "agg-error-on-valid-input", What: err.Error(), Replay: []string{c.String()}})
 			return
@@ -1326,7 +1358,7 @@ func runSys(c sysCase, rep *vh.Report, orc *vh.Oracle) {
 			}
 		}
 	}
-	orc.Case(c.String(), nmatch >= 3 && len(c.fracs) >= 2, "beyond-int64="+vh.B(c.huge), "fn="+c.agg.fn, fmt.Sprintf("fracs=%d", len(c.fracs)), "group="+vh.B(c.agg.group), "timeseries="+vh.B(c.agg.interval > 0))
+	orc.Case(c.String(), nmatch >= 3 && len(c.fracs) >= 2, "beyond-int64="+vh.B(c.huge), "prod-limits="+vh.B(c.limits), "fn="+c.agg.fn, fmt.Sprintf("fracs=%d", len(c.fracs)), "group="+vh.B(c.agg.group), "timeseries="+vh.B(c.agg.interval > 0))
 	if got != want {
 		site, class := classify(c.fracs, c.agg, skip, got, want)
 		rep.Violate(vh.Violation{Site: site, Class: class,
@@ -1367,13 +1399,15 @@ func genSys(r *vh.RNG, maxDocs int) sysCase {
 		c.agg.fn = "min"
 	}
 	c.huge = valMode != 0
+	c.limits = r.Bool()
+	c.tidOff = r.Intn(3)
 	return c
 }
 
 
 // ------------------------------------------------------------------ oracle agg.e2e (child process)
 
-const e2eRule = "on the implementation only, end to end: real stores (1-3 shards, active and sealed fractions, whole time axis and restricted time ranges in which some group / field tokens do not occur) behind the real proxy search ingestor (setup.TestingEnv: bulk over HTTP, search over gRPC incl. buildSearchResponse/responseToQPR and the proxy-side MergeQPRs), Aggregate as proxyapi calls it == buckets computed directly from the ingested documents; histogram == per-bucket document counts; non-trivial = >= 2 fractions or shards and >= 3 matching documents"
+const e2eRule = "on the implementation only, end to end: real stores (1-3 shards, active and sealed fractions, whole time axis and restricted time ranges in which some group / field tokens do not occur, without and with the production default aggregation limits, synchronous and asynchronous searches) behind the real proxy search ingestor (setup.TestingEnv: bulk over HTTP, search over gRPC incl. buildSearchResponse/responseToQPR and the proxy-side MergeQPRs), Aggregate as proxyapi calls it == buckets computed directly from the ingested documents; histogram == per-bucket document counts; non-trivial = >= 2 fractions or shards and >= 3 matching documents"
 
 func bulkPost(addr string, docs []string) error {
 	b := bytes.NewBuffer(nil)
@@ -1398,11 +1432,13 @@ type e2eQ struct {
 	order seq.DocsOrder
 	// requested time range as offsets (ms) from the base minute; to == 0: the whole time axis
 	from, to uint64
+	// asynchronous search: start, wait until done, fetch (per-fraction results are stored as JSON and merged on fetch)
+	async bool
 }
 
 // e2eEnv brings up one environment, ingests the batches (document MIDs are offsets in ms from a base minute a few
 // minutes in the past), seals where asked, runs the queries and checks every answer against the documents.
-func e2eEnv(rep *vh.Report, orc *vh.Oracle, shards int, batches [][]doc, sealAfter []bool, queries []e2eQ) {
+func e2eEnv(rep *vh.Report, orc *vh.Oracle, shards int, limits bool, batches [][]doc, sealAfter []bool, queries []e2eQ) {
 	dir, err := os.MkdirTemp("", "c06-e2e-")
 	if err != nil {
 		orc.Error = err.Error()
@@ -1415,6 +1451,15 @@ func e2eEnv(rep *vh.Report, orc *vh.Oracle, shards int, batches [][]doc, sealAft
 			"g": seq.NewSingleType(seq.TokenizerTypeKeyword, "", 0),
 			"f": seq.NewSingleType(seq.TokenizerTypeKeyword, "", 0),
 		}}
+	if limits { // the seq-db binary's default aggregation limits (the testing env runs without limits otherwise)
+		cfg.FracManagerConfig = fracmanager.FillConfigWithDefault(&fracmanager.Config{
+			FracSize:  256 * consts.MB,
+			TotalSize: 1 * consts.GB,
+			SealParams: frac.SealParams{IDsZstdLevel: -5, LIDsZstdLevel: -5, TokenListZstdLevel: -5, DocsPositionsZstdLevel: -5,
+				TokenTableZstdLevel: -5, DocBlocksZstdLevel: -5, DocBlockSize: consts.MB * 4},
+			Fraction: frac.Config{Search: frac.SearchConfig{AggLimits: frac.AggLimits(prodLimits)}},
+		})
+	}
 	env := setup.NewTestingEnv(cfg)
 	defer env.StopAll()
 	base := uint64(time.Now().Add(-3 * time.Minute).Truncate(time.Minute).UnixMilli())
@@ -1477,16 +1522,22 @@ func e2eEnv(rep *vh.Report, orc *vh.Oracle, shards int, batches [][]doc, sealAft
 			}
 			opts = append(opts, func(sr *psearch.SearchRequest) { sr.From, sr.To = seq.MID(base+q.from), seq.MID(base+q.to) })
 		}
-		qpr, _, _, err := env.Search("m:1", 5, opts...)
+		var qpr *seq.QPR
+		var err error
+		if q.async {
+			qpr, err = asyncSearch(env, aq, q, base)
+		} else {
+			qpr, _, _, err = env.Search("m:1", 5, opts...)
+		}
 		// the case key uses offsets from the base minute, not wall-clock time
-		key := fmt.Sprintf("e2e shards=%d sealed=%d %s hist=%d order=%d range=%d-%d docs=%s", shards, sealed, a.String(), q.hist, q.order, q.from, q.to, fmtDocs(rel))
+		key := fmt.Sprintf("e2e shards=%d sealed=%d lim=%s async=%s %s hist=%d order=%d range=%d-%d docs=%s", shards, sealed, vh.B(limits), vh.B(q.async), a.String(), q.hist, q.order, q.from, q.to, fmtDocs(rel))
 		nmatch := 0
 		for _, d := range inRange {
 			if d.match {
 				nmatch++
 			}
 		}
-		orc.Case(key, nmatch >= 3 && (shards > 1 || sealed > 0 || ranged), "fn="+a.fn, fmt.Sprintf("shards=%d", shards), fmt.Sprintf("sealed=%d", sealed), "timeseries="+vh.B(a.interval > 0), "ranged="+vh.B(ranged), fmt.Sprintf("active-docs=%s", vh.B(activeDocs > 0)))
+		orc.Case(key, nmatch >= 3 && (shards > 1 || sealed > 0 || ranged), "fn="+a.fn, fmt.Sprintf("shards=%d", shards), fmt.Sprintf("sealed=%d", sealed), "timeseries="+vh.B(a.interval > 0), "ranged="+vh.B(ranged), fmt.Sprintf("active-docs=%s", vh.B(activeDocs > 0)), "prod-limits="+vh.B(limits), "async="+vh.B(q.async))
 		if err != nil {
 			rep.Violate(vh.Violation{Site: "proxy/search/ingestor.go:Search", Class: "agg-error-on-valid-input", What: err.Error(), Replay: []string{key}})
 			continue
@@ -1511,11 +1562,43 @@ func e2eEnv(rep *vh.Report, orc *vh.Oracle, shards int, batches [][]doc, sealAft
 				}
 			}
 			if fmtHist(qpr.Histogram) != fmtHist(wantHist) {
-				rep.Violate(vh.Violation{Site: "frac/processor/search.go:iterateEvalTree", Class: "histogram-differs-from-documents",
+				site := "frac/processor/search.go:iterateEvalTree"
+				if q.async {
+					site = "fracmanager/async_searcher.go:FetchSearchResult"
+				}
+				rep.Violate(vh.Violation{Site: site, Class: "histogram-differs-from-documents",
 					What: fmt.Sprintf("end to end: got %d buckets want %d buckets (first differing run: %s)", len(qpr.Histogram), len(wantHist), key[:min(len(key), 80)]), Replay: []string{key}})
 			}
 		}
 	}
+}
+
+// asyncSearch runs the query as an asynchronous search through the proxy: start, poll until done, fetch.
+func asyncSearch(env *setup.TestingEnv, aq psearch.AggQuery, q e2eQ, base uint64) (*seq.QPR, error) {
+	searcher := env.Ingestor().Ingestor.SearchIngestor
+	from, to := time.UnixMilli(0), time.UnixMilli(int64(base)).Add(time.Hour)
+	if q.to > 0 {
+		from, to = time.UnixMilli(int64(base+q.from)), time.UnixMilli(int64(base+q.to))
+	}
+	ctx, cancel := context.WithTimeout(context.Background(), 30*time.Second)
+	defer cancel()
+	resp, err := searcher.StartAsyncSearch(ctx, psearch.AsyncRequest{Query: "m:1", From: from, To: to, Order: q.order,
+		Aggregations: []psearch.AggQuery{aq}, HistogramInterval: seq.MID(q.hist)})
+	if err != nil {
+		return nil, fmt.Errorf("start async: %w", err)
+	}
+	fr := psearch.FetchAsyncSearchResultRequest{ID: resp.ID, Size: 5}
+	for ctx.Err() == nil {
+		r, err := searcher.FetchAsyncSearchResult(ctx, fr)
+		if err != nil {
+			return nil, fmt.Errorf("fetch async: %w", err)
+		}
+		if r.Done {
+			return &r.QPR, nil
+		}
+		time.Sleep(20 * time.Millisecond)
+	}
+	return nil, fmt.Errorf("async search not done in time")
 }
 
 // shiftMids rewrites the absolute MIDs at the start of every rendered bucket as offsets from base (so that the
@@ -1554,7 +1637,11 @@ func e2eChild(o vh.Opts) {
 	nEnv := o.Pick(4, 60)
 	for e := 0; e < nEnv && orc.Error == ""; e++ {
 		shards := rng.Range(1, 3)
+		limits := rng.Bool()
 		nb := rng.Range(1, 4)
+		if e == 0 && nb < 2 { // the first environment always has a sealed and an active fraction
+			nb = 2
+		}
 		var batches [][]doc
 		var sealAfter []bool
 		valMode = pickMode(rng)
@@ -1568,7 +1655,7 @@ func e2eChild(o vh.Opts) {
 				docs[i].mid = uint64(rng.Intn(240)) * 250 // ms offsets inside one minute
 			}
 			batches = append(batches, docs)
-			sealAfter = append(sealAfter, b+1 < nb && rng.Bool())
+			sealAfter = append(sealAfter, b+1 < nb && (rng.Bool() || (e == 0 && b == 0)))
 		}
 		valMode = 0
 		var qs []e2eQ
@@ -1587,9 +1674,15 @@ func e2eChild(o vh.Opts) {
 				q.from = uint64(rng.Intn(160)) * 250
 				q.to = q.from + uint64(rng.Range(4, 120))*250
 			}
+			q.async = rng.Chance(1, 4)
 			qs = append(qs, q)
 		}
-		e2eEnv(rep, orc, shards, batches, sealAfter, qs)
+		// asynchronous searches with a histogram over all fractions, both orders: per-fraction results with
+		// differing bucket sets are decoded one after the other and merged on fetch
+		for _, ord := range []seq.DocsOrder{seq.DocsOrderDesc, seq.DocsOrderAsc} {
+			qs = append(qs, e2eQ{a: aggq{fn: "count", group: true}, hist: 1000, order: ord, async: true})
+		}
+		e2eEnv(rep, orc, shards, limits, batches, sealAfter, qs)
 	}
 	rep.AddOracle(orc)
 	rep.Write(o.Out)
@@ -1598,17 +1691,19 @@ func e2eChild(o vh.Opts) {
 // replayE2E re-runs one end-to-end case: the documents are split evenly over sealed+1 batches.
 func replayE2E(line string, rep *vh.Report, orc *vh.Oracle) {
 	f := strings.Fields(line)
-	if len(f) != 8 {
+	if len(f) != 10 {
 		return
 	}
 	shards, _ := strconv.Atoi(strings.TrimPrefix(f[1], "shards="))
 	sealed, _ := strconv.Atoi(strings.TrimPrefix(f[2], "sealed="))
-	a := parseAggq(f[3])
-	hist, _ := strconv.ParseUint(strings.TrimPrefix(f[4], "hist="), 10, 64)
-	ord, _ := strconv.Atoi(strings.TrimPrefix(f[5], "order="))
+	limits := f[3] == "lim=1"
+	async := f[4] == "async=1"
+	a := parseAggq(f[5])
+	hist, _ := strconv.ParseUint(strings.TrimPrefix(f[6], "hist="), 10, 64)
+	ord, _ := strconv.Atoi(strings.TrimPrefix(f[7], "order="))
 	var from, to uint64
-	fmt.Sscanf(strings.TrimPrefix(f[6], "range="), "%d-%d", &from, &to)
-	docs := parseDocs(strings.TrimPrefix(f[7], "docs="))
+	fmt.Sscanf(strings.TrimPrefix(f[8], "range="), "%d-%d", &from, &to)
+	docs := parseDocs(strings.TrimPrefix(f[9], "docs="))
 	nb := sealed + 1
 	var batches [][]doc
 	var sealAfter []bool
@@ -1616,7 +1711,7 @@ func replayE2E(line string, rep *vh.Report, orc *vh.Oracle) {
 		batches = append(batches, docs[len(docs)*b/nb:len(docs)*(b+1)/nb])
 		sealAfter = append(sealAfter, b+1 < nb)
 	}
-	e2eEnv(rep, orc, shards, batches, sealAfter, []e2eQ{{a, hist, seq.DocsOrder(ord), from, to}})
+	e2eEnv(rep, orc, shards, limits, batches, sealAfter, []e2eQ{{a, hist, seq.DocsOrder(ord), from, to, async}})
 }
 
 // e2eParent re-executes this binary for the end-to-end oracle so that a Fatal / panic / hang inside the stores
